@@ -259,3 +259,52 @@ func storm(w *bufio.Writer, d time.Duration, maxOut int) {
 	fmt.Fprintf(w, "STORM\tsubs=%d dup=%d stale=%d other=%d\t%s\n", total.Load(), dup.Load(), stale.Load(), other.Load(),
 		strings.Join(examples, ";"))
 }
+
+// slowSubCase is the witness of what lies OUTSIDE the hypothesis "the consumer keeps reading": a
+// subscriber whose consumer does not read for longer than finitestate's forwardGrace (100 ms) after
+// its context was cancelled loses the values that were still in flight (the repaired forwarder
+// discards them rather than leak, /repo 85f0d8e).  Printed as a RAW case: the driver must explain
+// the shortened stream with the model's slow-after-cancel classification (and nothing else).
+func slowSubCase(w *bufio.Writer, r *prng.R, id string) {
+	h := slog.NewTextHandler(io.Discard, &slog.HandlerOptions{Level: slog.LevelError})
+	fm, err := finitestate.NewTypicalFSM(h)
+	if err != nil {
+		panic(err)
+	}
+	var prog []string
+	n := 0
+	tr := func(to string) {
+		if e := fm.Transition(to); e == nil {
+			n++
+			prog = append(prog, fmt.Sprintf("t%d=1", code(to)))
+		} else {
+			prog = append(prog, fmt.Sprintf("t%d=0", code(to)))
+		}
+	}
+	if r.Bool() {
+		tr("Booting")
+		if r.Bool() {
+			tr("Running")
+		}
+	}
+	sr := &subRec{done: make(chan struct{}), ulo: -1, uhi: -1, lo: n, hi: n}
+	ctx, cf := context.WithCancel(context.Background())
+	ch := fm.GetStateChan(ctx) // s0 sits in the wrapped channel; the consumer is not reading yet
+	k := 1 + r.Intn(2)         // one value into the forwarder's hand, a second into the manager channel
+	for i := 0; i < k; i++ {
+		tr([]string{"Error", "Stopped"}[i]) // Error is allowed from every state, Stopped from Error
+	}
+	sr.cancel, sr.ulo, sr.uhi, sr.cancelAt = true, n, n, time.Now()
+	cf()
+	stall := 130
+	if r.Chance(1, 3) {
+		stall = 20 // inside the grace: nothing may be lost
+	}
+	time.Sleep(time.Duration(stall) * time.Millisecond)
+	for v := range ch {
+		sr.got = append(sr.got, code(v))
+	}
+	sr.closed, sr.closedAt = true, time.Now()
+	close(sr.done)
+	fmt.Fprintf(w, "RAW\t%s\t%s\t%s\n", id, strings.Join(prog, " "), joinSubs([]*subRec{sr}, n))
+}
